@@ -59,6 +59,7 @@ def rules(ctx):
 def c021(ctx):
     R = "C02.1"
     ctx.declare(R, "an Ok from write() implies the covering fdatasync returned success")
+    c021_fsync_inputs(ctx, R)
     f = ctx.fn(R, KVS + "write")
     if f:
         app = ctx.calls(R, f, r"sst::log::ConcurrentLogBuilder::append$", arg_pred=K.recv_is_field("mem_log"),
@@ -144,6 +145,43 @@ def c021(ctx):
     if f:
         ctx.must_pass(R, f, "BufWriter::flush", P.call_points(f, r"BufWriter.* as std::io::Write>::flush$|std::io::Write::flush$"),
                       goals=P.return_points(f))
+
+
+def c021_fsync_inputs(ctx, R):
+    """Everything handed to the fsync queue is in one unit: the offset token the write queue returned for a batch, or the constant 0
+    (`nothing of mine to cover`).  The core keeps `synced` in that unit and acknowledges `synced >= input` without a sync."""
+    n = 0
+    for f in sorted(ctx.prog.fns.values(), key=lambda f: f.key):
+        if f.crate != "sst" or "::log::" not in f.skey:
+            continue
+        for p_ in P.call_points(f, r"WorkCoalescingQueue.*::do_work$"):
+            t = P.term_at(f, p_)
+            if "fsync_cq" not in K.arg_field_names(f, p_, 0):
+                continue
+            n += 1
+            srcs, _ = P.value_slice(f, t["args"][1])
+            ok = True
+            why = []
+            for s_ in srcs:
+                if s_["k"] == "const":
+                    if s_.get("v") not in (0, None):
+                        ok = False
+                        why.append("constant %s" % s_.get("v"))
+                elif s_["k"] == "call":
+                    if s_["callee"].endswith("::do_work") and "write_cq" in K.arg_field_names(f, s_["pt"], 0):
+                        continue
+                    if P.TRANSPARENT.search(s_["callee"]) or re.search(r"::(unwrap|expect|map_err|branch|from_residual)$", s_["callee"]):
+                        continue
+                    ok = False
+                    why.append(P.short(s_["callee"]))
+                elif s_["k"] in ("param", "bin"):
+                    ok = False
+                    why.append(s_["k"])
+            ctx.check(R, f, "fsync-input-is-a-write-token", ok, "the fsync queue is asked to cover the write queue's token (or 0)",
+                      "%s hands the fsync queue a value that is not a write-queue token (%s): the core compares it with `synced`, which counts in the "
+                      "write queue's unit, and a larger foreign value pushes the mark past bytes that were never synced -- later appends are "
+                      "acknowledged without an fdatasync" % (f.skey, ", ".join(sorted(set(why)))), pt=p_)
+    ctx.floor(R, "inputs handed to the fsync queue", n, 2)
 
 
 def guard_on_result(fn, pt, call_pts):
